@@ -8,6 +8,7 @@ Request:
    "src":[ctx,..]}
   T ::= {"k":"seq","kind":"Sequence"|"Source","c":[T..]} | {"k":"split","c":[T..]}
       | {"k":"set","key":[slots],"val":leaf|null,"tpl":TPL|null} | {"k":"store"|"ucfs"|"data"|"src"}
+      | {"k":"mut","key":[slots],"val":leaf}
       | {"k":"mkf"|"write"|"cache","tpl":TPL}
   TPL ::= [lit0, [slots of field 1], lit1, …]
 Reply: {"nodes":[per node in document order: {"k":..,"get":ctx|{"e":key}} (set, seq, split),
@@ -16,7 +17,8 @@ Reply: {"nodes":[per node in document order: {"k":..,"get":ctx|{"e":key}} (set, 
   "spec":[per node: the same record predicted by `ctxAt`/`leafFinal`/`fold`, or null where the prefix of the node
   has an unresolved key], "cones":[per node: [["seq", number of earlier children] | ["split"], ..]],
   "out":{"r":[[data,ctx],..] (`run` on the built state), "ref": `runRef`, "plain": `runPlain`,
-  "no_consumer": bool}|{"unmodelled":true}|null} -/
+  "no_consumer": bool, "linear": `St.linear`, "itemwise": the concatenation of `run` on the one-value flows}
+  |{"unmodelled":true}|null} -/
 open Lean Lena Lena.Drv Lena.Val Lena.C13
 
 def leafJson : Leaf → Json
@@ -95,6 +97,12 @@ partial def toTree (j : Json) : Option Tree := do
   | "store" => pure (.leaf .store)
   | "ucfs" => pure (.leaf .ucfs)
   | "data" => pure (.leaf .data)
+  | "mut" =>
+    match ← natList? (getD j "key") with
+    | [] => none
+    | k0 :: ks => do
+      let l ← toLeaf (getD j "val")
+      pure (.leaf (.mut k0 ks l))
   | "src" => pure (.leaf .src)
   | "mkf" => do pure (.leaf (.mkf (← toTpl (getD j "tpl"))))
   | "write" => do pure (.leaf (.write (← toTpl (getD j "tpl"))))
@@ -127,6 +135,7 @@ partial def observe (n : Nat) (names : Array String) (ok : OutKeys) : St → Lis
   | .write _ nm => [Json.mkObj [("k", "write"), ("name", nameJson nm)]]
   | .cache _ nm => [Json.mkObj [("k", "cache"), ("name", nameJson nm)]]
   | .data => [Json.mkObj [("k", "data")]]
+  | .mut .. => [Json.mkObj [("k", "mut")]]
   | .src => [Json.mkObj [("k", "src")]]
   | .seq kind cs sc =>
     Json.mkObj [("k", "seq"), ("get", resJson names (getCtx n (.seq kind cs sc)))] ::
@@ -183,7 +192,11 @@ def handle (j : Json) : Json :=
                 ("ref", match runRef n ok src t (Val.empty n) fl with
                   | some r' => flowJson names r'
                   | none => Json.null),
-                ("plain", flowJson names (runPlain src t fl)), ("no_consumer", Json.bool t.noConsumer)]
+                ("plain", flowJson names (runPlain n src t fl)), ("no_consumer", Json.bool t.noConsumer),
+                ("linear", Json.bool st.linear),
+                ("itemwise", match fl.foldl (fun acc it => appendOpt acc (run n ok src st [it])) (some []) with
+                  | some r' => flowJson names r'
+                  | none => Json.null)]
             | none => Json.mkObj [("unmodelled", Json.bool true)]
           | _, _ => err "bad flow"
       let paths := allPaths t
